@@ -104,7 +104,9 @@ def c_case(case: Dict[str, Any], prefix: str, alphabet, xorder, M) -> str:
         return "\n".join(out)
     out.append(f"Definition {prefix}_universe : universe := {c_universe(case['universe'])}.")
     mk = lambda n, reqs: c_dist(n, None, [U.parse_requirement(r) for r in reqs], True, U)
-    out.append(f"Definition {prefix}_inputs : list dist := {c_list([mk(n, r) for (n, r) in case['inputs']])}.")
+    pj = case.get("project_inputs") or {}
+    mki = lambda n, reqs: c_dist(n, pj[n], [U.parse_requirement(r) for r in reqs], False, U) if n in pj else mk(n, reqs)
+    out.append(f"Definition {prefix}_inputs : list dist := {c_list([mki(n, r) for (n, r) in case['inputs']])}.")
     cons = "None" if case["constraints"] is None else "(Some " + c_list([mk(n, r) for (n, r) in case["constraints"]]) + ")"
     out.append(f"Definition {prefix}_constraints : option (list dist) := {cons}.")
     md = "None" if case["max_downgrade"] is None else f"(Some {case['max_downgrade']})"
